@@ -27,6 +27,38 @@ theorem chunked_roundtrip (chunks : List (Bytes × Bytes)) (lastExt : Bytes) (tr
       (⟨chunks.map recOf ++ [⟨0, parseExts (lastExt.drop 1), trailerDict [] trailers, []⟩], .done⟩, tail) :=
   chunked_decode_encode chunks lastExt trailers tail hc hl ht hn
 
+/-- the encode side as the code writes it: packChunk of every (non-empty) piece a WSGI app yields, then packChunk(b'')
+(Responder.write), decoded by parseChunk: exactly one chunk per piece with the piece as data, then the last chunk, and
+whatever follows on the connection (`tail`) untouched — for pieces of EVERY length (the bound is 16^65536 bytes, the
+length whose hex size line would itself exceed MAX_LINE_SIZE) -/
+theorem pack_parse_roundtrip (pieces : List Bytes) (tail : Bytes)
+    (h : ∀ p ∈ pieces, p ≠ [] ∧ p.length < 16 ^ maxLineSize) :
+    chunkReader.run {} (packAll pieces ++ tail) =
+      (⟨pieces.map (fun p => ⟨p.length, [], [], p⟩) ++ [⟨0, [], [], []⟩], .done⟩, tail) := by
+  rw [packAll_eq_encode]
+  have hc : ∀ q ∈ pieces.map (fun p => (p, ([] : Bytes))), chunkOk q := by
+    intro q hq
+    obtain ⟨p, hp, rfl⟩ := List.mem_map.mp hq
+    have := h p hp
+    refine ⟨this.1, Or.inl rfl, by simp, ?_⟩
+    simpa using toHex_length_le maxLineSize p.length (by decide) this.2
+  have hl : extOk [] ∧ 13 ∉ ([] : Bytes) ∧ (toHex 0 ++ []).length ≤ maxLineSize := by
+    refine ⟨Or.inl rfl, by simp, ?_⟩
+    rw [toHex]; decide
+  have := chunked_roundtrip (pieces.map fun p => (p, [])) [] [] tail hc hl (by simp) (by simp)
+  rw [this]
+  simp [recOf, trailerDict, parseExts, List.map_map, Function.comp_def]
+
+/-- the body recovered from packed pieces is their concatenation -/
+theorem pack_parse_body (pieces : List Bytes) :
+    ((pieces.map (fun p => (⟨p.length, [], [], p⟩ : ChunkRec))).map (·.data)).flatten = pieces.flatten := by
+  simp [List.map_map, Function.comp_def]
+
+/-- the size constants the http modules define (regenerated): a new or changed size limit is a new boundary for the
+coding and has to be looked at — the generators take their boundary sizes from this table -/
+theorem size_constants_pinned :
+    sizeConstants = [("MAXAMOUNT", 1048576), ("MAX_LINE_SIZE", 65536), ("_MAXLINE", 65536)] := by decide
+
 /-- the decoded body is the concatenation of the chunks: exactly the body that was encoded, whatever its division -/
 theorem decoded_body (chunks : List (Bytes × Bytes)) : ((chunks.map recOf).map (·.data)).flatten = (chunks.map (·.1)).flatten := by
   simp [recOf, List.map_map, Function.comp_def]
